@@ -196,13 +196,20 @@ def file_cases(rng, quick):
         for d, gate in ((a, "Sgate"), (b, "Vac")):
             with open(os.path.join(d, "lib", "sub.xbb"), "w") as f:
                 f.write("name sub\nversion 1.0\n%s(0.5) | 1\nBSgate(0.1, 0.2) | [1, 4]\n" % gate if gate != "Vac" else "name sub\nversion 1.0\nVac | 1\nVac | 4\n")
-        base = 'name main\nversion 1.0\ninclude "lib/sub.xbb"\n\nfloat x = 0.5\nsub | [0, 1]\nRgate(x) | 0\nsub | [2, 3]'
+        base = 'name main\nversion 1.0\ninclude "lib/sub.xbb"\n\nfloat x = 0.5\nsub | [0, 1]\nRgate(x+-2) | 0\nsub | [2, 3]'
         variants = []
         for nl in ("\n", "\r\n", "\r"):
             body = base.replace("\n", nl)
             for tail in (nl, "", " ", " # end", nl + nl, nl + "# last" , "  " + nl):
                 variants.append((body + tail, "line ends %r, text ends with %r" % (nl, tail)))
         variants.append((base.replace("\n\nfloat", "\n# about x\n\n\nfloat") + "\n", "comment and blank lines"))
+        # own-line comments before the metadata whose TEXT looks like a directive to some tool (editor mode lines, encoding
+        # cookies, shebangs): to Blackbird they are comments
+        for c in ["# -*- coding: utf-7 -*-", "# encoding: dual-rail", "# decoding=lookup table", "# vim: set fileencoding=utf-16 :", "#!/usr/bin/env blackbird",
+                  "# coding: latin-1", "# -*- mode: python; coding: cp500 -*-"]:
+            variants.append((c + "\n" + base + "\n", "first line %r" % c))
+            variants.append(("\n" + c + "\n" + base + "\n", "second line %r after a blank line" % c))
+            variants.append(("# x\n" + c + "\n" + base + "\n", "second line %r after a comment line" % c))
         paths = []
         for k, (t, what) in enumerate(variants):
             pth = os.path.join(a, "main_%d.xbb" % k)
